@@ -487,6 +487,9 @@ func driveRoundTrip(c *driverCtx, prop string) error {
 	// dedicated minimal witnesses (one feature each, including every known finding)
 	for _, wt := range witnessCases() {
 		for k := 0; k < 3; k++ {
+			if prop == "C02" && wt.name == "thousands-of-small-records" && k > 0 {
+				continue // (C02's judge parses the container itself: thousands of blocks cost it minutes; the one-block file stays)
+			}
 			vals := wt.values(c)
 			// one big block; one record per block; small blocks
 			cfg := rtConfig{Codec: codecs3[k%3], Block: []int{1 << 20, 0, 64}[k], Flush: map[int]bool{}, Reader: []string{"bytes", "bufio+closesome", "chunk+close"}[k]}
